@@ -605,7 +605,7 @@ def main(tier):
     global _CFG
     run = runner.Run(PID, tier, "model_checking")
     runner.in_child(etgen.selftest)
-    nparse = parsing_cases(run)
+    nparse = runner.guard(run, 'C18:parsing:raised', parsing_cases, run)
     for nm in NAMES:
         for bad in runner.in_child(par_case, nm):
             spec = 'plain' if nm in ('sim', 'sim-v1.2') else 'special-name'
